@@ -184,7 +184,7 @@ func (e *Engine) VerifyProps(props []string, only map[string]bool, opts runOpts,
 		if c.Trusted || c.Inline {
 			continue
 		}
-		if len(want) > 0 && !hasProp(c.Props, want) {
+		if len(want) > 0 && !hasProp(c.allProps(), want) {
 			continue
 		}
 		if len(only) > 0 && !only[c.Name] {
